@@ -46,9 +46,12 @@ def load (w : List (Key × Val)) (ps : PSt) : St :=
   { epoch := ps.epoch, nodes := ps.nodes, back := ps.back, dirty := ps.dirty, world := w }
 
 /-- clean shutdown + reopen: everything that was published is in the store (C10 `drain_on_drop`),
-    the volatile parts are gone.  `log` / `choicePoints` are observation counters of the model. -/
+    the volatile parts of the engine are gone: the computing table, the backward-projection locks,
+    the running firewall repairs, the per-epoch `dirtied_queries` set and the statistic.  (`log`,
+    `choicePoints`, `tapePos` are observation bookkeeping of the model, `world` is the environment.)
+    `restart_is_reload` (Lemmas/EnginePersist.lean) shows this is `load` of the persistent image. -/
 def restart (s : St) : St :=
-  { load s.world (persistent s) with log := s.log, choicePoints := s.choicePoints }
+  { s with computing := [], bpLock := [], tfcStack := [], dirtied := [], dirtiedEdges := 0 }
 
 /-- engine state + the images of the store after every logical write batch so far (oldest first) -/
 structure PS where
@@ -197,8 +200,7 @@ def repairTfcP (t : Toggles) (p : Program) : Nat → Key → MP Unit
     let n ← match (← getNode k) with
       | some n => pure n
       | none => throwP (.panic "repair_transitive_firewall_callees: node_info unwrap")
-    if n.tfc.length ≥ 2 then modifyS fun s => { s with choicePoints := s.choicePoints + 1 }
-    for f in (if t.desc then n.tfc.reverse else n.tfc) do
+    for f in (← permuteChoice t n.tfc) do
       let _ ← queryForP t p fuel f .repairFirewall
 
 /-- `invoke_backward_projections` + `done_backward_projection` -/
@@ -209,8 +211,7 @@ def invokeBackwardProjectionsP (t : Toggles) (p : Program) : Nat → Key → MP 
     let mut projs : List Key := []
     for c in callers do
       if (← storedKind c) == .projection then projs := projs ++ [c]
-    if projs.length ≥ 2 then modifyS fun s => { s with choicePoints := s.choicePoints + 1 }
-    for pj in (if t.desc then projs.reverse else projs) do
+    for pj in (← permuteChoice t projs) do
       let _ ← queryForP t p fuel pj .bpp
     let n ← nodeInfoUnchecked k
     setNode k { n with pendingBP := none }
@@ -252,7 +253,7 @@ def repairQueryP (t : Toggles) (p : Program) : Nat → Key → Caller → MP Uni
       let pedantic := match caller with
         | .query _ _ ped => ped
         | _ => false
-      let mut recompute := false
+      let mut recompute := t.f32 && n.sccRun
       let mut needTfc := false
       let mut cleaned : List Key := []
       for dep in n.fwd do
@@ -285,7 +286,9 @@ def repairQueryP (t : Toggles) (p : Program) : Nat → Key → Caller → MP Uni
               if add then cleaned := cleaned ++ [callee]
               if rt then needTfc := true
       if recompute then
-        modifyComp k fun c => { c with callees := [], order := [], unorderedMode := false }
+        let keep := t.f31 && ((findComp k (← getS).computing).map (·.inScc)).getD false
+        if !keep then
+          modifyComp k fun c => { c with callees := [], order := [], unorderedMode := false }
         executeQueryP t p fuel k true caller
       else
         -- computing_lock_to_clean_query / clean_query
@@ -370,7 +373,8 @@ def executeQueryP (t : Toggles) (p : Program) : Nat → Key → Bool → Caller 
     setNode k {
       kind := comp.kind, lastVerified := now, value := value, fwd := comp.order,
       obs := observations, tfc := comp.tfc,
-      pendingBP := if needBP then some now else (old.bind (·.pendingBP)) }
+      pendingBP := if needBP then some now else (old.bind (·.pendingBP)),
+      sccRun := comp.inScc }
     addBackEdges k comp.order
     publish   -- `set_computed`: submit_write_buffer(tx)
     popComputing k
